@@ -172,6 +172,10 @@ def main():
 
     # ---- output
     wit_notes = []
+    for f in findings:
+        if f.get('status') == 'open' and f['property'] == prop and f.get('static') and f.get('unit') in mine:
+            known_lines.append('KNOWN-FINDING: property=%s %s %s (region excluded from clause %s; witness: %s)' % (
+                prop, f['id'], f.get('what', ''), f['clause_id'], f.get('witness_fixture', '')))
     for f in wit_findings:
         wr = wit_results.get(f['id'], {})
         if wr.get('found'):
